@@ -367,6 +367,22 @@ def run_transfer(spec):
             else:
                 c = (lab.gw if direction == "l2r" else lab.remote_gateway).newchannel()
                 v, path = nest(rng, c, depth)
+                if rng.random() < 0.3:
+                    # the same channel is first sent to a listener that has just gone away (the item is dropped over there):
+                    # that says nothing about the travelling channel, which is then sent again on a live channel
+                    import gc
+
+                    xl, xr = lab.pair_newchannel_local() if direction == "l2r" else tuple(reversed(lab.pair_newchannel_remote()))
+                    del xr
+                    gc.collect()
+                    time.sleep(rng.choice((0.0, 0.01)))
+                    try:
+                        xl.send(v)
+                    except OSError:
+                        pass
+                    time.sleep(0.02)
+                    xl.close()
+                    res.count("transfers_first_sent_to_a_vanished_listener")
                 (lab.control_local if direction == "l2r" else lab.control_remote).send(v)
                 early = rng.random() < 0.5
                 if early:
